@@ -51,6 +51,12 @@ def base_history(seed, ncommits, pagesize):
         lines.append("commit %d" % t)
         lines.append("snap c%d" % c)
         t += 1
+        # the state of every commit is compared with the specification: bytes (`file`) and API (`dump`)
+        lines.append("file")
+        lines.append("begin %d r" % t)
+        lines.append("dump %d" % t)
+        lines.append("drop %d" % t)
+        t += 1
     lines.append("close")
     return lines
 
